@@ -7,6 +7,8 @@ package web
 //     are HTML/JS payloads and invalid UTF-8; responses tokenised with golang.org/x/net/html and compared with a benign
 //     run of the same shape (oracle), and handed to the model's tokenizer (correspondence)
 //  D. shards built through the public builder API with a sub-repository path that is not a prefix of the file name
+//  E. (zz_verif_c36resp_test.go) every route and response mode of the mux behind a real net/http server: effective
+//     Content-Type (after net/http's sniffing) and nosniff for files that start with every signature of net/http's sniffer
 
 import (
 	"bytes"
@@ -881,7 +883,7 @@ func TestVerifC36(t *testing.T) {
 			}
 		}
 		class := []string{"A:format", fmt.Sprintf("A:wf=%v", wf), fmt.Sprintf("A:panic=%v", panicked != ""), fmt.Sprintf("A:sublong=%v", subLong)}
-		vfCase(cApp("CFormat", vfC36CoqFiles(fs), obs), vfKey("A", fmt.Sprintf("%q", fs), localPrint), nfr >= 2 || panicked != "", class,
+		vfCase(cApp("COld", cApp("CFormat", vfC36CoqFiles(fs), obs)), vfKey("A", fmt.Sprintf("%q", fs), localPrint), nfr >= 2 || panicked != "", class,
 			map[string]any{"files": fmt.Sprintf("%q", fs), "panic": panicked})
 	}
 
@@ -936,7 +938,7 @@ func TestVerifC36(t *testing.T) {
 		if bad != "" {
 			vfOracleFail("esc:not-inert:"+strconv.Itoa(k), bad, map[string]any{"k": k, "s": s, "out": out})
 		}
-		vfCase(cApp("CEsc", cN(uint64(k)), cStr(s), cStr(mid)), vfKey("B", k, s), mid != s, []string{"B:esc", "B:k=" + strconv.Itoa(k)},
+		vfCase(cApp("COld", cApp("CEsc", cN(uint64(k)), cStr(s), cStr(mid))), vfKey("B", k, s), mid != s, []string{"B:esc", "B:k=" + strconv.Itoa(k)},
 			map[string]any{"k": k, "s": s, "out": mid})
 	}
 
@@ -1029,7 +1031,7 @@ func TestVerifC36(t *testing.T) {
 			}
 			if tagCases < maxTagCases {
 				tagCases++
-				vfCase(cApp("CTags", vfC36Bytes(rh.body), vfC36SkelCoq(th)), vfKey("C", reqH[j], fmt.Sprintf("%q", hos.atoms)), true,
+				vfCase(cApp("COld", cApp("CTags", vfC36Bytes(rh.body), vfC36SkelCoq(th))), vfKey("C", reqH[j], fmt.Sprintf("%q", hos.atoms)), true,
 					[]string{"C:page", "C:req=" + strconv.Itoa(j)}, map[string]any{"request": reqH[j], "len": len(rh.body)})
 			}
 		}
@@ -1037,13 +1039,16 @@ func TestVerifC36(t *testing.T) {
 		for k := 0; k < 3; k++ {
 			doc := vfC36GenStr(r) + "<p title=x>" + vfC36GenStr(r) + "</p>" + vfC36GenStr(r) + "<br/>"
 			tk, _ := vfC36Tokens([]byte(doc))
-			vfCase(cApp("CTags", cStr(doc), vfC36SkelCoq(tk)), vfKey("Cs", doc), len(tk) > 3, []string{"C:snippet"}, map[string]any{"doc": doc})
+			vfCase(cApp("COld", cApp("CTags", cStr(doc), vfC36SkelCoq(tk))), vfKey("Cs", doc), len(tk) > 3, []string{"C:snippet"}, map[string]any{"doc": doc})
 		}
 	}
 	vfInfo(map[string]any{"c36_pairs": npairs, "c36_pages_compared": compared, "c36_discarded_shape_or_build": discarded, "c36_rejected_requests_plain_text": rejected})
 	if compared < npairs {
 		vfOracleFail("generator-too-weak", fmt.Sprintf("only %d page pairs compared for %d corpus pairs", compared, npairs), nil)
 	}
+
+	// ---- E: response classes of every route (zz_verif_c36resp_test.go)
+	vfC36PartE(t, r, n)
 
 	// ---- D: through the public builder API: a document whose SubRepositoryPath is accepted but is not a prefix of its name
 	for _, c := range [][2]string{{"a", "a/b/c"}, {"x/y.go", "x/y.go/z/w"}} {
